@@ -372,6 +372,9 @@ for _p, _g in (("C02", "derive-core-enum"), ("C04", "derive-core-enum"), ("C08",
 PROPS["C08"]["text"] += " Derived structs nested in a Vec, a BTreeMap and an Option (1-3 elements, each fine / lacking a field / lacking both / with an invalid value / with an unknown key), keep-going error type: every missing / unknown / invalid report is made at the element it belongs to (native execution, bounded)."
 PROPS["C19"]["text"] = PROPS["C19"].get("text", "") + " Long paths (up to 40 steps, four phases of a repeating key / index pattern) are executed natively as a bounded companion (an implementation that treats short paths specially cannot hide behind the 6-step enumeration)."
 
+_more("C18", "enum", "did-you-mean", "harnesses", ["dym_pairs_multibyte"])
+PROPS["C18"]["text"] += " A second exhaustive pair domain uses an alphabet of a 1-, a 2- and a 3-byte character (44 044 pairs), so that byte length (which fixes the budget) and character count (which the distance counts) disagree in every way they can."
+
 # C13: container part, bounded
 PROPS["C13"]["units"] = PROPS["C13"]["units"] + [{"kind": "enum", "group": "json-documents", "harnesses": ["json_documents"],
     "bounds": "797 603 documents: nesting depth <= 2, arrays / objects of width <= 2 (keys `k`, `l l`), scalars from the statement's boundary set (0, 7, 2^53+1, u64::MAX, -1, -2^53-1, i64::MIN, 1.5, -0.0, a subnormal, 1e300, 2^64 as float, two strings with escapes / non-ASCII, null, booleans)"}]
